@@ -57,7 +57,7 @@ def prefixedNat? (p s : String) : Option Nat := (stripPre p s).bind nat?
 
 def viaOk (s : String) : Bool := s == "own" || s == "h1" || s == "h2"
 def kindOk (s : String) : Bool :=
-  ["fn", "fut", "pend", "yield", "sleep", "panic", "fnpanic"].contains s
+  ["fn", "fut", "pend", "yield", "sleep", "panic", "fnpanic", "block"].contains s
 
 def showInt (i : Int) : String := if i < 0 then "-" ++ toString i.natAbs else toString i.natAbs
 
